@@ -750,6 +750,14 @@ func rulePU8b() Rule {
 			for _, f := range funcs {
 				isFn[f] = true
 			}
+			provedLocally := map[ast.Node]bool{}
+			for _, f := range funcs {
+				for _, st := range c.pf1Sites(f) {
+					if st.kind == "IDX" && st.res.OK && st.res.Inv == "" {
+						provedLocally[st.node] = true
+					}
+				}
+			}
 			// direct effect of a statement-level node on the depth, and whether it indexes the top
 			direct := func(info *types.Info, n ast.Node) (delta int, indexesTop bool) {
 				switch x := n.(type) {
@@ -772,6 +780,11 @@ func rulePU8b() Rule {
 					}
 				case *ast.IndexExpr:
 					if core.FieldOf(info, x.X) == stackF {
+						// an index the guard engine proves in range from the code around it (a loop
+						// that counts up to len(p.stack)) holds at any depth
+						if provedLocally[x] {
+							return 0, false
+						}
 						return 0, true
 					}
 				}
@@ -840,41 +853,28 @@ func rulePU8b() Rule {
 				// everything else changes the depth through calls only: the lowest depth before
 				// each call and each index of the top frame is taken from PU8's typestate, which
 				// correlates the conditions under which frames are opened and closed
-				info := f.Info()
-				g := cfg.New(f.Body, core.MayReturn(info))
-				atoms := atomsWith(c.P, f, eng.callAtoms(f))
-				lowAt := map[ast.Node]int{}
-				overall := 0
-				for v := 0; v < 1<<len(atoms); v++ {
-					val := map[string]bool{}
-					for i, a := range atoms {
-						val[a] = v&(1<<i) != 0
-					}
-					balanceObs(c.P, f, g, func(n ast.Node) []depthEffect { return eng.effectsAt(f, n, val) }, val, true, func(x ast.Node, low int) {
-						if low < overall {
-							overall = low
-						}
-						switch x.(type) {
-						case *ast.CallExpr, *ast.IndexExpr:
-							if old, seen := lowAt[x]; !seen || low < old {
-								lowAt[x] = low
-							}
-						}
-					})
+				type at struct {
+					g *core.Func
+					x ast.Node
 				}
-				for x, low := range lowAt {
-					switch x := x.(type) {
+				lowAt := map[at]int{}
+				overall := eng.sitesOf(f, 0, nil, 0, func(g *core.Func, x ast.Node, low int) {
+					k := at{g, x}
+					if old, seen := lowAt[k]; !seen || low < old {
+						lowAt[k] = low
+					}
+				})
+				for k, low := range lowAt {
+					ginfo := k.g.Info()
+					switch x := k.x.(type) {
 					case *ast.CallExpr:
-						if _, deferred := c.P.Parent(x).(*ast.DeferStmt); deferred {
-							continue
-						}
-						if fo := core.StaticCallee(info, x); fo != nil {
+						if fo := core.StaticCallee(ginfo, x); fo != nil {
 							if h := c.P.FuncOf(fo); h != nil && isFn[h] && h.Decl != nil {
 								calls[f] = append(calls[f], site{h, low, x.Pos()})
 							}
 						}
 					case *ast.IndexExpr:
-						if _, idx := direct(info, x); idx {
+						if _, idx := direct(ginfo, x); idx {
 							if need := 1 - low; need > base[f] {
 								base[f] = need
 							}
